@@ -24,7 +24,7 @@ PROP = "C18"
 INTS = [0, 1, -1, 7, 2**31 - 1, 2**31, -2**31, -2**31 - 1, 2**32, 2**63 - 1, 2**63, 10**30]
 FLOATS = ["0.0", "-0.0", "0.5", "0.1", "0.3333333333333333", "1e-07", "1.5e-10", "1e+16", "1e+22", "1.7976931348623157e+308", "5e-324", "1e999",
           "123456789.125", "2.5e-05", "1e16", "100000.0", "1.0"]
-SIGMA = ["a", "Z", "0", " ", "\"", "'", "\\", "%", "{", "}", "\n", "é", ";", "\x01", "\x7f", "/", "*", "#", "\u2028", "\x85", "?"]
+SIGMA = ["a", "Z", "0", " ", "\"", "'", "\\", "%", "{", "}", "\n", "é", ";", "\x01", "\x7f", "/", "*", "#", "\u2028", "\x85", "?", "\u0301", "\u212a"]
 
 
 def strings(maxlen):
